@@ -169,3 +169,40 @@ func Harness_C06A_tkzNextNOL() {
 	verifAssert(nt.col == c06TrueCol(buf, nt.current.begin), "col restarts after EOL tokens")
 	verifCover("end")
 }
+
+// comments in context: blanks (0..2) + a block or line comment with one
+// symbolic byte inside + two symbolic bytes after it.  Longer than the
+// all-symbolic buffers above, structured so that the path count stays small.
+func Harness_C06A_Comment() {
+	pre := []string{"", " ", "  ", "\t", "x ", "x"}[verifChoice("pre", 6)]
+	in := verifString("in", 1)
+	tail := verifString("tail", 2)
+	var buf string
+	if verifChoice("kind", 2) == 0 {
+		buf = pre + "/*" + in + "*/" + tail
+	} else {
+		verifAssume(in[0] != '\n')
+		buf = pre + "//" + in + "\n" + tail
+	}
+	p := 0
+	if len(pre) > 0 && pre[0] == 'x' {
+		p = 1
+	}
+	q, ok := c06RefSkip(buf, p)
+	if !ok {
+		return
+	}
+	var sp Token
+	pan, msg := tryRun(func() { sp = scanSpaceToken(buf, p) })
+	verifAssert(!pan, "scanSpaceToken does not fail on a terminated comment: "+msg)
+	verifAssert(sp.begin == p && sp.begin+sp.len == q, "blanks and comments are skipped exactly (nothing after the comment is swallowed)")
+	if p == 1 {
+		var want, got Token
+		pw, _ := tryRun(func() { want = scanTokenAt(buf, q) })
+		pg, _ := tryRun(func() { got = nextToken(buf, scanTokenAt(buf, 0)) })
+		if !pw && !pg && q < len(buf) {
+			verifAssert(c06SameToken(got, want), "the token after a comment is the one that follows it")
+		}
+	}
+	verifCover("end")
+}
